@@ -1,6 +1,7 @@
 package svg
 
 import (
+	"errors"
 	"fmt"
 	"math"
 
@@ -409,6 +410,9 @@ type use struct {
 	target *svgNode
 }
 
+// recursive <use> elements are considered malicious: the whole image is rejected
+var errRecursiveUse = errors.New("invalid recursive <use>")
+
 // resolves and returns the <use> target content
 // wrapped in graphicContent field
 func (context *svgContext) resolveUse(node *cascadedNode, defs definitions) (*svgNode, error) {
@@ -427,7 +431,7 @@ func (context *svgContext) resolveUse(node *cascadedNode, defs definitions) (*sv
 	var useTarget cascadedNode
 	if ID := href.Fragment; ID != "" && sameOrigin {
 		if context.inUseIDs.Has(ID) {
-			return nil, fmt.Errorf("invalid recursive <use>")
+			return nil, errRecursiveUse
 		}
 		if context.defs[ID] == nil {
 			logger.WarningLogger.Printf("SVG: <use> content not defined")
